@@ -13,7 +13,7 @@
    Besides queries and DML the grammar has the statements that CARRY a query or an expression without being
    queries: CREATE [OR REPLACE] VIEW name [(cols)] AS query, CREATE MATERIALIZED VIEW name [(cols)] AS query,
    CREATE [UNIQUE] INDEX name ON table (keys) [WHERE cond], CREATE TABLE name (column type [DEFAULT e] [CHECK (c)] ...,
-   [CHECK (c)] ...).  (CREATE TABLE name AS query is not accepted by the parser.)  The names such a statement
+   [CHECK (c)] ...), EXPLAIN / DESCRIBE query.  (CREATE TABLE name AS query is not accepted by the parser.)  The names such a statement
    DEFINES or designates as plain strings (view / index / table name, view column list, index keys and the table
    an index is built on, column definitions, key lists of table constraints) are not table / column positions:
    the property lists FROM lists, joins, DML targets and USING, the extractors document FROM, JOIN, sub-queries,
@@ -91,7 +91,8 @@ with mstmt :=
 | MCreateView (n : tname) (cols : list string) (q : mstmt)            (* CREATE [OR REPLACE] [TEMPORARY] VIEW n [(cols)] AS q *)
 | MCreateMView (n : tname) (cols : list string) (q : mstmt)           (* CREATE MATERIALIZED VIEW n [(cols)] AS q *)
 | MCreateIndex (n t : tname) (keys : list name) (wh : mopt)           (* CREATE [UNIQUE] INDEX n ON t (keys) [WHERE wh] *)
-| MCreateTable (n : tname) (cols : mcoldefs) (tcs : mtabcons).        (* CREATE TABLE n (cols, tcs) *)
+| MCreateTable (n : tname) (cols : mcoldefs) (tcs : mtabcons)         (* CREATE TABLE n (cols, tcs) *)
+| MExplain (q : mstmt).                                               (* EXPLAIN q / DESCRIBE q *)
 
 Scheme mexpr_mi := Induction for mexpr Sort Prop
 with mexprs_mi := Induction for mexprs Sort Prop
@@ -274,7 +275,13 @@ with ast_stmt (s : mstmt) : qn :=
          [(SColumns, map (fun k => QN KIndexCol (nameA (nstr k)) []) keys); (SWhere, ast_opt wh)]
   | MCreateTable n cols tcs =>
       QN KCreateTable (nameA (tstr n)) [(SColumns, ast_coldefs cols); (SConstraints, ast_tabcons tcs)]
+  | MExplain q => QN KDescribe (nameA "SELECT") [(SQuery, [ast_stmt q])]      (* DescribeStatement{TableName: "SELECT", Query: q} *)
   end.
+
+(* what the parser built for EXPLAIN q before /repo kept the query (DescribeStatement.Query): the query was parsed
+   and thrown away.  Kept to state what the repair removed ([C15_explain_query_dropped_refuted],
+   [C16_explain_query_dropped_refuted]). *)
+Definition explain_pinned : qn := QN KDescribe (nameA "SELECT") [].
 
 (* ---- the specification: names written in table / column / function positions ---- *)
 
@@ -354,6 +361,7 @@ with items (s : mstmt) : list item :=
   | MCreateView _ _ q | MCreateMView _ _ q => items q
   | MCreateIndex _ _ _ wh => items_opt wh
   | MCreateTable _ cols tcs => items_coldefs cols ++ items_tabcons tcs
+  | MExplain q => items q
   end.
 
 Definition tables_written (s : mstmt) : list string :=
@@ -389,11 +397,11 @@ Definition modelled_edges : list (kind * slot) :=
    (KExists, SSubquery); (KSubquery, SSubquery); (KCast, SExpr); (KAliased, SExpr);
    (KCreateView, SQuery); (KCreateMView, SQuery); (KCreateIndex, SWhere);
    (KCreateTable, SColumns); (KCreateTable, SConstraints); (KColumnDef, SConstraints);
-   (KColConstraint, SDefault); (KColConstraint, SCheck); (KTabConstraint, SCheck)].
+   (KColConstraint, SDefault); (KColConstraint, SCheck); (KTabConstraint, SCheck); (KDescribe, SQuery)].
 
 (* the node kinds of the statements of the grammar: the roots an analysis of a parsed text starts from *)
 Definition stmt_kinds : list kind :=
-  [KSelect; KSetOp; KInsert; KUpdate; KDelete; KMerge; KCreateView; KCreateMView; KCreateIndex; KCreateTable].
+  [KSelect; KSetOp; KInsert; KUpdate; KDelete; KMerge; KCreateView; KCreateMView; KCreateIndex; KCreateTable; KDescribe].
 Definition roots_cover (root : kind -> bool) : bool := forallb root stmt_kinds.
 Definition edge_eqb (a b : kind * slot) : bool := kind_eqb (fst a) (fst b) && slot_eqb (snd a) (snd b).
 Definition em_covers (em : kind -> slot -> bool) : bool :=
